@@ -73,6 +73,18 @@ def cases(shard, rnd):
                 'ch': gf.rchannel(rnd)}
         for ch in gf.CHANNELS:
             yield {'t': 'heartbeat', 'ch': ch}
+        # frames above the default frame-max (the encoder enforces no limit)
+        for n in (131065, 131072, 131073, 200000, 1 << 20):
+            yield {'t': 'body', 'body': bytes([n % 251]) * n,
+                   'ch': gf.rchannel(rnd)}
+        sp = refspec.BY_NAME['Queue.Declare']
+        vals = gf.assignment(rnd, sp)
+        vals['arguments'] = {'k%05d' % i: 'v' * 20 for i in range(5000)}
+        yield {'t': 'method', 'index': sp.index, 'vals': vals, 'ch': 9}
+        sp = refspec.BY_NAME['Connection.StartOk']
+        vals = gf.assignment(rnd, sp)
+        vals['response'] = 'r' * 300000
+        yield {'t': 'method', 'index': sp.index, 'vals': vals, 'ch': 0}
 
 
 def run_case(case, rec):
@@ -151,6 +163,11 @@ def run_case(case, rec):
         return
     F = m.value
     rec.nt(canon.digest_bytes(F))
+    if len(F) > 131080:
+        rec.count('frames_above_default_frame_max')
+        if len(F) > 20000:
+            case = {'t': t, 'ch': case['ch'], 'note': 'large %s frame of %d '
+                    'bytes (regenerate from the shard)' % (t, len(F))}
     p = call(frame.frame_parts, F)
     if not p.ok:
         rec.violation('peek-raised', 'frame_parts on an encoded frame %s'
@@ -200,6 +217,8 @@ def gates(m, tier):
             out.append('range %s never peeked' % r)
     if set(range(7)) - set(m.sets.get('short_lengths', ())):
         out.append('short lengths 0..6 not all exercised')
+    if not m.counters.get('frames_above_default_frame_max'):
+        out.append('no frame above the default frame-max was peeked')
     for k in ('method', 'header', 'body', 'heartbeat'):
         if k not in m.sets.get('kinds', ()):
             out.append('kind %s never peeked and re-fed' % k)
